@@ -1,5 +1,7 @@
 import SeqVerif.Model.C03Codec
 import SeqVerif.Model.C03Lids
+import SeqVerif.Model.C03Ids
+import SeqVerif.Base.Search
 import SeqVerif.Model.C03Tokens
 import SeqVerif.Extracted.C03T
 /-!
@@ -106,6 +108,162 @@ theorem c03_t_HasTIDInNextBlock (t : Table) (bi tid : Nat) (hb : bi < t.minTIDs.
     · simp [e]
     · have e' : ¬ ((t.adjMin (bi + 1) : Int) = (tid : Int)) := by omega
       simp [e, e']
+
+/-- `Table.GetFirstBlockIndexForTID` (`sort.Search` over `MaxTIDs`; both panics are `none`), for tables of fewer
+than 2^32 blocks -/
+theorem c03_t_GetFirstBlockIndexForTID (t : Table) (tid : Nat) (hl : t.maxTIDs.length < 4294967296) :
+    T.Table_GetFirstBlockIndexForTID (ints t.maxTIDs) tid = (t.firstBlock tid).map Int.ofNat := by
+  unfold T.Table_GetFirstBlockIndexForTID Table.firstBlock
+  rw [len_ints]
+  by_cases h0 : t.maxTIDs.length = 0
+  · have h0' : (t.maxTIDs.length : Int) = 0 := by omega
+    simp [h0]
+  · have h0' : ¬ ((t.maxTIDs.length : Int) = 0) := by omega
+    have hs := sortSearch_eq
+      (fun i => (idx (ints t.maxTIDs) i).bind fun v0 => some (decide (v0 ≥ (tid : Int))))
+      (fun i => decide (t.maxTIDs.getD i 0 ≥ tid)) t.maxTIDs.length (by
+        intro i hi
+        simp only [idx_ints _ _ hi, Option.bind_some, getD_of_lt _ _ _ hi, Option.some.injEq]
+        by_cases hc : t.maxTIDs[i] ≥ tid
+        · have : (t.maxTIDs[i] : Int) ≥ (tid : Int) := by omega
+          simp [hc, this]
+        · have : ¬ (t.maxTIDs[i] : Int) ≥ (tid : Int) := by omega
+          simp [hc, this])
+    simp only [if_neg h0, if_neg h0', hs, Option.bind_some]
+    have hb := SV.searchGo_bounds (fun i => decide (t.maxTIDs.getD i 0 ≥ tid)) 0 t.maxTIDs.length (by omega)
+    generalize SV.searchGo (fun i => decide (t.maxTIDs.getD i 0 ≥ tid)) 0 t.maxTIDs.length = ix at *
+    by_cases he : ix = t.maxTIDs.length
+    · have he' : (ix : Int) = (t.maxTIDs.length : Int) := by omega
+      simp [he]
+    · have he' : ¬ ((ix : Int) = (t.maxTIDs.length : Int)) := by omega
+      simp only [if_neg he, if_neg he', Option.map_some, Option.some.injEq, Int.ofNat_eq_natCast]
+      unfold wrapU32; omega
+
+/-- `Table.GetLastBlockIndexForTID` (`sort.Search` over the adjusted minimal TIDs, then `- 1`; an index of -1 and a
+TID beyond the block are `none`), for well-shaped tables: the three columns have the same length below 2^32,
+TIDs are uint32, a continued block does not start at TID 0 -/
+theorem c03_t_GetLastBlockIndexForTID (t : Table) (tid : Nat)
+    (hl : t.minTIDs.length < 4294967296) (hlc : t.isContinued.length = t.minTIDs.length)
+    (hlx : t.maxTIDs.length = t.minTIDs.length) (hr : ∀ x, x ∈ t.minTIDs → x < 4294967296)
+    (h0 : ∀ i, t.isContinued.getD i false = true → 1 ≤ t.minTIDs.getD i 0) :
+    T.Table_GetLastBlockIndexForTID (ints t.maxTIDs) (ints t.minTIDs) t.isContinued tid
+      = (t.lastBlock tid).map Int.ofNat := by
+  unfold T.Table_GetLastBlockIndexForTID Table.lastBlock
+  rw [len_ints, len_ints]
+  by_cases hz : t.maxTIDs.length = 0
+  · have hz' : (t.maxTIDs.length : Int) = 0 := by omega
+    simp [hz]
+  · have hz' : ¬ ((t.maxTIDs.length : Int) = 0) := by omega
+    have hs := sortSearch_eq
+      (fun i => (T.Table_GetAdjustedMinTID (ints t.minTIDs) t.isContinued (wrapU32 i)).bind fun v0 =>
+        some (decide (v0 > (tid : Int))))
+      (fun i => decide (t.adjMin i > tid)) t.minTIDs.length (by
+        intro i hi
+        have hw : wrapU32 (i : Int) = (i : Int) := by unfold wrapU32; omega
+        simp only [hw, c03_t_GetAdjustedMinTID t i hi (by omega) hr (h0 i), Option.bind_some, Option.some.injEq]
+        by_cases hc : t.adjMin i > tid
+        · have : (t.adjMin i : Int) > (tid : Int) := by omega
+          simp [hc, this]
+        · have : ¬ (t.adjMin i : Int) > (tid : Int) := by omega
+          simp [hc, this])
+    simp only [if_neg hz, if_neg hz', hs, Option.bind_some]
+    have hb := SV.searchGo_bounds (fun i => decide (t.adjMin i > tid)) 0 t.minTIDs.length (by omega)
+    generalize SV.searchGo (fun i => decide (t.adjMin i > tid)) 0 t.minTIDs.length = s at *
+    by_cases hs0 : s = 0
+    · subst hs0
+      have : wrapI64 (((0 : Nat) : Int) - 1) = -1 := by unfold wrapI64; omega
+      rw [this, idx_neg _ (by omega)]
+      simp
+    · have hw : wrapI64 ((s : Int) - 1) = ((s - 1 : Nat) : Int) := by unfold wrapI64; omega
+      have hlt : s - 1 < t.maxTIDs.length := by omega
+      rw [hw, idx_ints _ _ hlt]
+      simp only [Option.bind_some, if_neg hs0, getD_of_lt _ _ _ hlt]
+      by_cases hc : tid > t.maxTIDs[s - 1]
+      · have : (tid : Int) > (t.maxTIDs[s - 1] : Int) := by omega
+        simp [hc, this]
+      · have : ¬ (tid : Int) > (t.maxTIDs[s - 1] : Int) := by omega
+        simp only [if_neg hc, if_neg this, Option.map_some, Option.some.injEq, Int.ofNat_eq_natCast]
+        unfold wrapU32; omega
+
+/-- `seq.LessOrEqual` on IDs given as naturals -/
+theorem c03_t_seq_LessOrEqual (a b : ID) : T.LessOrEqual a.1 a.2 b.1 b.2 = idLE a b := by
+  unfold T.LessOrEqual idLE
+  by_cases h : a.1 = b.1
+  · have h' : (a.1 : Int) = (b.1 : Int) := by omega
+    by_cases h2 : a.2 ≤ b.2
+    · have : (a.2 : Int) ≤ (b.2 : Int) := by omega
+      simp [h, h2, this]
+    · have : ¬ (a.2 : Int) ≤ (b.2 : Int) := by omega
+      simp [h, h2, this]
+  · have h' : ¬ ((a.1 : Int) = (b.1 : Int)) := by omega
+    by_cases h2 : a.1 < b.1
+    · have : (a.1 : Int) < (b.1 : Int) := by omega
+      simp [h, h', h2, this]
+    · have : ¬ (a.1 : Int) < (b.1 : Int) := by omega
+      simp [h, h', h2, this]
+
+/-- `sealedIDsIndex.LessOrEqual(lid, id)` with its two block-minimum short cuts = `C03.lessOrEqual` at
+`consts.IDsPerBlock = 4096`.  `GetMID` / `GetRID` (block loads through caches) are uninterpreted parameters of the
+translated function; they are instantiated with the values the model's `getMID` / `getRID` yield for this LID
+(a valid fraction has both for every LID below `IDsTotal`).  The table's IDs are opaque values read through the
+accessors `ID_MID`, `ID_RID`. -/
+theorem c03_t_LessOrEqual (t : IDsTable) (blocks : List IDBlockDisk) (lid : Nat) (id : ID) (gm gr : Int → Int) (m r : Nat)
+    (hlid : lid < 4294967296)
+    (hm : lid < t.idsTotal → getMID 4096 blocks lid = some m) (hgm : gm lid = m)
+    (hr : lid < t.idsTotal → getRID 4096 blocks lid = some r) (hgr : gr lid = r) :
+    T.sealedIDsIndex_LessOrEqual t.minBlockIDs (t.idsTotal : Int) lid id.1 id.2 (fun p => (p.1 : Int)) (fun p => (p.2 : Int)) gm gr
+      = lessOrEqual 4096 t blocks lid id := by
+  unfold T.sealedIDsIndex_LessOrEqual lessOrEqual T.IDsLoader_getIDBlockIndexByLID
+  by_cases h1 : lid ≥ t.idsTotal
+  · have h1' : (lid : Int) ≥ (t.idsTotal : Int) := by omega
+    simp only [if_pos h1, if_pos h1']
+  · have h1' : ¬ (lid : Int) ≥ (t.idsTotal : Int) := by omega
+    have hd : Int.tdiv (lid : Int) 4096 = ((lid / 4096 : Nat) : Int) := tdiv_natCast lid 4096
+    simp only [if_neg h1, if_neg h1', hd, idx_natCast]
+    cases hb : t.minBlockIDs[lid / 4096]? with
+    | none => simp
+    | some mn =>
+      have e1 := c03_t_seq_LessOrEqual mn id
+      simp only [Option.bind_some, e1, hm (by omega), hr (by omega), hgm, hgr]
+      cases hmn : idLE mn id with
+      | false => simp
+      | true =>
+        simp only [Bool.not_true, Bool.false_eq_true, if_false, not_true_eq_false]
+        have tail : (if (m : Int) = (id.1 : Int) then
+              if (id.2 : Int) = 18446744073709551615 then some true else some (decide ((r : Int) ≤ (id.2 : Int)))
+            else some (decide ((m : Int) < (id.1 : Int))))
+            = (if m = id.1 then if id.2 = 18446744073709551615 then some true else Option.map (fun r => decide (r ≤ id.2)) (some r)
+               else some (decide (m < id.1))) := by
+          by_cases c1 : m = id.1
+          · have c1' : (m : Int) = (id.1 : Int) := by omega
+            by_cases c2 : id.2 = 18446744073709551615
+            · have c2' : (id.2 : Int) = 18446744073709551615 := by omega
+              simp [c1, c2]
+            · have c2' : ¬ ((id.2 : Int) = 18446744073709551615) := by omega
+              by_cases c3 : r ≤ id.2
+              · have : (r : Int) ≤ (id.2 : Int) := by omega
+                simp [c1, c2, c2', c3, this]
+              · have : ¬ (r : Int) ≤ (id.2 : Int) := by omega
+                simp [c1, c2, c2', c3, this]
+          · have c1' : ¬ ((m : Int) = (id.1 : Int)) := by omega
+            by_cases c3 : m < id.1
+            · have : (m : Int) < (id.1 : Int) := by omega
+              simp [c1, c1', c3, this]
+            · have : ¬ (m : Int) < (id.1 : Int) := by omega
+              simp [c1, c1', c3, this]
+        by_cases h2 : lid / 4096 > 0
+        · have h2' : ((lid / 4096 : Nat) : Int) > 0 := by omega
+          have hw : wrapI64 (((lid / 4096 : Nat) : Int) - 1) = ((lid / 4096 - 1 : Nat) : Int) := by unfold wrapI64; omega
+          have hlt : lid / 4096 - 1 < t.minBlockIDs.length := by
+            have := (List.getElem?_eq_some_iff.mp hb).1; omega
+          simp only [if_pos h2', hw, idx_natCast, List.getElem?_eq_getElem hlt, Option.bind_some, c03_t_seq_LessOrEqual,
+            prevLE, h2, decide_true, Bool.true_and]
+          cases hp : idLE t.minBlockIDs[lid / 4096 - 1] id with
+          | true => simp
+          | false => simpa using tail
+        · have h2' : ¬ ((lid / 4096 : Nat) : Int) > 0 := by omega
+          simp only [if_neg h2', h2, decide_false, Bool.false_and, Bool.false_eq_true, if_false]
+          exact tail
 
 /-- `bsNew` / the token block size rule `max(1, len(tids)/(fieldSize/RegularBlockSize+1))`, for every token list
 and every field size an `int` can hold -/
